@@ -269,6 +269,24 @@ CHECKS = {
         note="htpasswd and command back-ends are not driven (Accept <=> backend verdict is direct there); a primary-store "
              "outage with the mirror answering the cache read is covered by C15's fallback checks, not here.",
         ref="DESIGN.md 4 C07"),
+    "C19": dict(
+        module="KMClient",
+        technique="TLA+ model of the client's key generation, upload and credential installation (TLC exhaustive + as-built "
+                  "negative controls) ; the real client (setupCerts) run against the real server handlers over TLS with a "
+                  "recording transport, capturing SSH agent and scratch home ; TLC trace monitor",
+        text="KMClient models one client run: generate x509 / main / Ed25519 key pairs, log in, upload only public halves, "
+             "receive certificates, install them in the agent (replacing the entry with the same label) or in files with "
+             "restricted modes; invariants: nothing private is ever in the set of transmitted values, every key type the "
+             "client can offer is one the server certifies, one agent entry per label, private files owner-only. On the "
+             "implementation cmd/keymaster's setupCerts runs twice per case (key preference x password / TOTP / VIP "
+             "deployment x agent present / absent) against an in-process keymasterd over TLS; every request line, header "
+             "and body is recorded at the transport and searched (raw, PEM, base64- and hex-decoded) for every encoding of "
+             "every private key the agent was handed or the client wrote; a detector sanity guard requires the public "
+             "halves to be found by the same search.",
+        note="cmd/keymaster links github.com/bearsh/hid, which needs libudev headers absent from the sandbox: the harness "
+             "build replaces that module with a stub (scratch go.mod, nothing in /repo changes); U2F / WebAuthn and Okta "
+             "client paths are therefore not driven.",
+        ref="DESIGN.md 4 C19"),
 }
 PENDING_REASON = "check not built yet in this session (specification module planned in DESIGN.md section 4); not claimed until its check runs clean on the unchanged tree"
 ALL = ["C%02d" % i for i in range(1, 21)]
